@@ -1,4 +1,5 @@
 import DaeVerif.C18.Proofs
+import DaeVerif.C18.Names
 /-! History invariant for C18: every knowledge entry stems from a resolution through dae (with its
 original deadline), every member of the verified set from a positive probe. -/
 namespace DaeVerif.C18
@@ -818,8 +819,7 @@ theorem updateKey_eq (h : Str) (q : Nat) (key : Str) :
     updateKey h q key = if key = [] then cacheKeyQ (fqdnOf h) q else key := rfl
 
 /-- the key an update is stored under belongs to the family of ITS OWN question (name, type). True
-of every production caller (`responseCacheKey(c.cacheKey(qname, qtype), …)`, dns_control.go) as long
-as the name contains no `|`; see `wellKeyed_of_production`. -/
+of every production caller (`ProductionKeyed`, `wellKeyed_of_production`). -/
 def WellKeyed : Event → Prop
   | .dnsUpdate h q _ key => baseKeyOf (updateKey h q key) = cacheKeyQ (fqdnOf h) q
   | _ => True
@@ -830,16 +830,38 @@ theorem baseKeyOf_noBar {s : Str} (h : hasChar '|' s = false) : baseKeyOf s = s 
 theorem baseKeyOf_scoped {a sc : Str} (h : hasChar '|' a = false) : baseKeyOf (a ++ '|' :: sc) = a := by
   unfold baseKeyOf; rw [splitFirst_append a sc h]
 
-theorem wellKeyed_of_production (h : Str) (q : Nat) (ttl : Int) (key : Str)
-    (hbar : hasChar '|' (cacheKeyQ (fqdnOf h) q) = false)
-    (hkey : key = [] ∨ ∃ sc, key = cacheKeyQ (fqdnOf h) q ++ '|' :: sc) :
-    WellKeyed (.dnsUpdate h q ttl key) := by
-  show baseKeyOf (updateKey h q key) = cacheKeyQ (fqdnOf h) q
-  rw [updateKey_eq]
-  rcases hkey with rfl | ⟨sc, rfl⟩
-  · simp only [if_true]; exact baseKeyOf_noBar hbar
-  · have : cacheKeyQ (fqdnOf h) q ++ '|' :: sc ≠ [] := by simp
-    rw [if_neg this]; exact baseKeyOf_scoped hbar
+theorem cacheKeyQ_noBar (n : Str) (q : Nat) : hasChar '|' (cacheKeyQ n q) = false := by
+  unfold cacheKeyQ
+  rw [hasChar_append, escBar_noBar]
+  have : hasChar '|' (itoa q) = false := by
+    rw [hasChar_false_iff]
+    intro c hc
+    have := itoa_digits q c hc
+    rintro rfl
+    simp [Char.isDigit] at this
+  simp [this]
+
+/-- the two key shapes of the production callers (`__updateDnsCacheDeadline` with `""`,
+`responseCacheKey(questionCacheKey(q), …)` = question key, optionally `|scope`): the key computed
+from the event's own question, or that key followed by `|` and a scope. -/
+def ProductionKeyed : Event → Prop
+  | .dnsUpdate h q _ key => key = [] ∨ key = cacheKeyQ (fqdnOf h) q ∨ ∃ sc, key = cacheKeyQ (fqdnOf h) q ++ '|' :: sc
+  | _ => True
+
+theorem wellKeyed_of_production (e : Event) (hp : ProductionKeyed e) : WellKeyed e := by
+  cases e with
+  | dnsUpdate h q ttl key =>
+    have hbar := cacheKeyQ_noBar (fqdnOf h) q
+    show baseKeyOf (updateKey h q key) = cacheKeyQ (fqdnOf h) q
+    rw [updateKey_eq]
+    rcases hp with rfl | rfl | ⟨sc, rfl⟩
+    · simp only [if_true]; exact baseKeyOf_noBar hbar
+    · split
+      · exact baseKeyOf_noBar hbar
+      · exact baseKeyOf_noBar hbar
+    · have : cacheKeyQ (fqdnOf h) q ++ '|' :: sc ≠ [] := by simp
+      rw [if_neg this]; exact baseKeyOf_scoped hbar
+  | _ => trivial
 
 theorem mem_trace_event (w : World) (es : List Event) (x : World × Event) (h : x ∈ trace w es) : x.2 ∈ es := by
   induction es generalizing w with
